@@ -40,8 +40,11 @@ pub fn case_record(tier: Tier, seed: u64, idx: u64) -> CaseRecord {
     }
     let db_r = SimDb::from_scenario(&s, false, false);
     let db_p = Arc::new(SimDb::from_scenario(&s, false, false));
-    let mut r = reference::new_ref_state(&db_r, true);
-    let mut p = ParallelState::new(Arc::clone(&db_p), true, false);
+    // one case in eight runs without bundle updates (transitions are not recorded; extraction yields an
+    // empty bundle on both sides, reads must still agree)
+    let bundle_update = !rng.chance(1, 8);
+    let mut r = reference::new_ref_state(&db_r, bundle_update);
+    let mut p = ParallelState::new(Arc::clone(&db_p), bundle_update, false);
     let mut findings: Vec<Finding> = Vec::new();
     let mut ops_log: Vec<String> = Vec::new();
     let mut touched: Vec<Address> = s.pre_state.iter().map(|a| a.address).collect();
@@ -189,6 +192,19 @@ pub fn case_record(tier: Tier, seed: u64, idx: u64) -> CaseRecord {
     ops_log.push(format!("parallel_take_bundle(plain={plain})"));
     if let Some(d) = diff_bundles(&bp, &br) {
         fail("history.bundle", d, &ops_log);
+    }
+    // a second extraction right away must be empty on both sides
+    let bp2 = if rng.chance(1, 2) {
+        // `parallel_take_bundle` = merge what is pending (nothing), then take
+        r.merge_transitions(retention(plain));
+        p.parallel_take_bundle(retention(plain))
+    } else {
+        p.take_bundle()
+    };
+    let br2 = r.take_bundle();
+    ops_log.push("second extraction".into());
+    if let Some(d) = diff_bundles(&bp2, &br2) {
+        fail("history.bundle", format!("second extraction: {d}"), &ops_log);
     }
     for a in touched.clone() {
         let x = p.basic_ref(a).ok().flatten().map(|i| (i.balance, i.nonce, i.code_hash));
